@@ -58,6 +58,8 @@ func checkC16(c *Ctx) {
 	// after quiescence the hub's replay history holds exactly the stored-and-not-deleted
 	// messages only if the search that drops a deleted message looks at every slot of the ring
 	// (decided by C15's ring-walk rule)
+	nW := c.borrow(checkC15, "C15/WIRING", "C16/RELAY/wired", "the hub is registered on the AfterMessageStored and AfterMessageDeleted brokers with callbacks that reach Dispatch and Delete")
+	r.Floor("C16/RELAY/wired", "borrowed obligations", nW, 2)
 	nH := c.borrow(checkC15, "C15/HISTORY/full-cycle", "C16/HISTORY/full-cycle", "every walk over the history ring that looks for a message inspects all N slots")
 	r.Floor("C16/HISTORY/full-cycle", "borrowed obligations", nH, 1)
 	// a delivery that overwrites the index with a list it loaded before releasing the lock undoes
